@@ -57,7 +57,12 @@ Definition read_be (bs : list N) (pos : N) (k : nat) : res N :=
 
 Definition num (z : Z) : lz := LNum (of_int z).
 
-Definition str_at (ptr len : N) : res (lz * option N) :=
+(** [LazyValueRef::new_string]: the string extent is checked against the input (by subtraction in
+    the Rust code, so the check itself cannot overflow) -- repair of finding F2. NaN floats are a
+    ReadError ([new_number]) -- repair of finding F1. *)
+Definition str_at (bs : list N) (ptr len : N) : res (lz * option N) :=
+  if lenN bs <? ptr + len then Err E_Read
+  else
   match add_w ptr len with
   | Ok e => Ok (LStr ptr len, Some e)
   | Err c => Err c | Panic s => Panic s | OutOfFuel => OutOfFuel
@@ -72,14 +77,14 @@ Definition lz_new (bs : list N) (pos : N) : res (lz * option N) :=
     if m <? 0x80 then Ok (num (Z.of_N m), Some p)                              (* FixPos *)
     else if m <? 0x90 then Ok (LObj (m - 0x80) [] p, None)                     (* FixMap *)
     else if m <? 0xa0 then Ok (LArr (m - 0x90) [] p, None)                     (* FixArray *)
-    else if m <? 0xc0 then str_at p (m - 0xa0)                                 (* FixStr *)
+    else if m <? 0xc0 then str_at bs p (m - 0xa0)                                 (* FixStr *)
     else if m =? 0xc0 then Ok (LNull, Some p)
     else if m =? 0xc2 then Ok (LBool false, Some p)
     else if m =? 0xc3 then Ok (LBool true, Some p)
     else if m =? 0xca then                                                     (* F32 *)
-      match read_be bs p 4 with Ok v => Ok (LNum (of_f32 v), Some (p + 4)) | Err c => Err c | Panic s => Panic s | OutOfFuel => OutOfFuel end
+      match read_be bs p 4 with Ok v => if is_nan (of_f32 v) then Err E_Read else Ok (LNum (of_f32 v), Some (p + 4)) | Err c => Err c | Panic s => Panic s | OutOfFuel => OutOfFuel end
     else if m =? 0xcb then                                                     (* F64 *)
-      match read_be bs p 8 with Ok v => Ok (LNum v, Some (p + 8)) | Err c => Err c | Panic s => Panic s | OutOfFuel => OutOfFuel end
+      match read_be bs p 8 with Ok v => if is_nan v then Err E_Read else Ok (LNum v, Some (p + 8)) | Err c => Err c | Panic s => Panic s | OutOfFuel => OutOfFuel end
     else if m =? 0xcc then
       match read_be bs p 1 with Ok v => Ok (num (Z.of_N v), Some (p + 1)) | Err c => Err c | Panic s => Panic s | OutOfFuel => OutOfFuel end
     else if m =? 0xcd then
@@ -97,11 +102,11 @@ Definition lz_new (bs : list N) (pos : N) : res (lz * option N) :=
     else if m =? 0xd3 then
       match read_be bs p 8 with Ok v => Ok (num (to_signed 8 v), Some (p + 8)) | Err c => Err c | Panic s => Panic s | OutOfFuel => OutOfFuel end
     else if m =? 0xd9 then                                                     (* Str8 *)
-      match read_be bs p 1 with Ok l => str_at (p + 1) l | Err c => Err c | Panic s => Panic s | OutOfFuel => OutOfFuel end
+      match read_be bs p 1 with Ok l => str_at bs (p + 1) l | Err c => Err c | Panic s => Panic s | OutOfFuel => OutOfFuel end
     else if m =? 0xda then
-      match read_be bs p 2 with Ok l => str_at (p + 2) l | Err c => Err c | Panic s => Panic s | OutOfFuel => OutOfFuel end
+      match read_be bs p 2 with Ok l => str_at bs (p + 2) l | Err c => Err c | Panic s => Panic s | OutOfFuel => OutOfFuel end
     else if m =? 0xdb then
-      match read_be bs p 4 with Ok l => str_at (p + 4) l | Err c => Err c | Panic s => Panic s | OutOfFuel => OutOfFuel end
+      match read_be bs p 4 with Ok l => str_at bs (p + 4) l | Err c => Err c | Panic s => Panic s | OutOfFuel => OutOfFuel end
     else if m =? 0xdc then                                                     (* Array16 *)
       match read_be bs p 2 with Ok l => Ok (LArr l [] (p + 2), None) | Err c => Err c | Panic s => Panic s | OutOfFuel => OutOfFuel end
     else if m =? 0xdd then
